@@ -122,6 +122,9 @@ type histState struct {
 	t      *tree.Tree
 	text   string // last good text
 	serial int
+	// what the last local edit was asked to do (C15)
+	added, removed []string
+	groups         [][]string
 }
 
 func sortedTipNames(t *tree.Tree) []string {
@@ -179,6 +182,7 @@ const opSkip = "skip"
 // applyOp interprets one step against the state. desc == opSkip: not applicable in this state.
 func applyOp(st *histState, op HOp) (desc string, err error) {
 	t := st.t
+	st.added, st.removed, st.groups = nil, nil, nil
 	r := rand.New(rand.NewSource(op.Seed))
 	rand.Seed(op.Seed) // the product's PRNG seam
 	tips := sortedTipNames(t)
@@ -338,7 +342,13 @@ func applyOp(st *histState, op HOp) (desc string, err error) {
 				g[0], g[len(g)-1] = g[len(g)-1], g[0]
 			}
 			groups = append(groups, g)
+			for _, n := range g {
+				if n != o {
+					st.added = append(st.added, n)
+				}
+			}
 		}
+		st.groups = groups
 		return fmt.Sprintf("InsertIdenticalTips(%v)", groups), t.InsertIdenticalTips(groups)
 	case "graft":
 		if e := t.ReinitIndexes(); e != nil {
@@ -350,7 +360,8 @@ func applyOp(st *histState, op HOp) (desc string, err error) {
 			g = mustParse(fmt.Sprintf("(G%da:0.5,G%db:0.25,(G%dc:1,G%dd:0.75)0.5:0.5);", st.serial, st.serial, st.serial, st.serial))
 		}
 		tip := tips[op.A%len(tips)]
-		return fmt.Sprintf("GraftTreeOnTip(%s)", tip), t.GraftTreeOnTip(tip, g)
+		st.added, st.removed = sortedTipNames(g), []string{tip}
+		return fmt.Sprintf("GraftTreeOnTip(%s <- %s)", tip, g.Newick()), t.GraftTreeOnTip(tip, g)
 	case "merge":
 		if !t.Rooted() {
 			return opSkip, nil
@@ -363,7 +374,8 @@ func applyOp(st *histState, op HOp) (desc string, err error) {
 		if e := g.ReinitIndexes(); e != nil {
 			return "ReinitIndexes", e
 		}
-		return "Merge(rooted 3-tip tree)", t.Merge(g)
+		st.added = sortedTipNames(g)
+		return "Merge(" + g.Newick() + ")", t.Merge(g)
 	case "rename":
 		m := map[string]string{}
 		for _, o := range pickSubset(r, tips, 1, 3) {
